@@ -46,6 +46,16 @@ def make(cfg):
         from checks.c06 import _patch_mesh_cache
 
         _patch_mesh_cache()
+        comm_name = (hybrid or {}).get("comm", "FP32")
+        low = comm_name in ("BF16", "FP16")
+        if low:
+            symx.CTX.opts["round_low_precision"] = True  # casts to bfloat16/float16 become the uninterpreted rounding round_<dtype>(x)
+        rname = "round_" + {"BF16": "bfloat16", "FP16": "float16"}.get(comm_name, "")
+
+        def rnd(x):
+            x = symx.SymReal.lift(x)
+            return x if (x.c is not None and x.c == 0) else symx.opaque(rname, [x])
+
         W = [H.arr_var(f"w{i}", s) for i, s in enumerate(origs)]
         splits = [row_split(s[0], nshard, (cfg.get("row_sizes") or {}).get(str(i))) for i, s in enumerate(origs)]
         grads_all = []
@@ -76,8 +86,11 @@ def make(cfg):
             ccfg = dict(base)
             ccfg["params"] = [l.shape for l in locals_]
             if hybrid:
+                from distributed_shampoo.shampoo_types import CommunicationDType
+
                 ccfg["distributed_config_factory"] = lambda run: HybridShardShampooConfig(device_mesh=mesh, num_trainers_per_group=hybrid.get("group", -1),
-                                                                                          communicate_params=hybrid.get("communicate_params", False))
+                                                                                          communicate_params=hybrid.get("communicate_params", False),
+                                                                                          communication_dtype=getattr(CommunicationDType, comm_name))
             else:
                 ccfg["distributed_config_factory"] = lambda run: FullyShardShampooConfig()
             ccfg["param_wrapper"] = "dtensor"
@@ -131,9 +144,14 @@ def make(cfg):
                     for j, i in enumerate(idx):
                         exp = H.read(O.params[j])
                         got = results[r][k][i]
+                        w0 = W[i][splits[i][srank][0]:splits[i][srank][1]]
                         for ix in (np.ndindex(*exp.shape) if exp.ndim else [()]):
-                            symx.prove_equal(f"shard rank {srank}{' replica ' + str(rep) if hybrid else ''}: local shard of parameter {i}{list(ix)} after step {k + 1} equals the serial optimizer on the local tensor",
-                                             got[ix], exp[ix], info)
+                            want = exp[ix]
+                            if low:
+                                # reduced precision (one step from a common state): replicas identical, off the serial result only by the rounding of what is communicated
+                                want = rnd(want) if hybrid.get("communicate_params", False) else w0[ix] + rnd(want - w0[ix])
+                            symx.prove_equal(f"shard rank {srank}{' replica ' + str(rep) if hybrid else ''}: local shard of parameter {i}{list(ix)} after step {k + 1} equals the serial optimizer on the local tensor"
+                                             + (" up to the rounding of the communicated quantity" if low else ""), got[ix], want, info)
             for rep in range(replicas):
                 r = rep * nshard + srank
                 for i in range(len(origs)):
@@ -167,6 +185,9 @@ def jobs_for(tier):
     add([(3, 2), (1, 2), (2,)], 2, presence="symbolic", graft=None, fixed=dict(mom=0, wd=0, b1=0))  # empty local shard together with an absent gradient
     add([(4, 2), (2,)], 2, hybrid=dict(replicate=2, group=-1), graft=None, fixed=dict(mom=0, wd=0))
     add([(4, 2), (3,)], 1, hybrid=dict(replicate=2, group=2, communicate_params=True), graft="sgd", fixed=dict(mom=0))
+    # reduced-precision communication (one step from a common state): replicas identical, deviation = rounding of the communicated quantity
+    add([(4, 2), (3,)], 1, hybrid=dict(replicate=2, group=2, comm="BF16"), graft=None, T=1, sps=1, fixed=dict(mom=0))
+    add([(4, 2), (2,)], 2, hybrid=dict(replicate=2, group=2, comm="FP16", communicate_params=True), graft="sgd", T=1, sps=1, fixed=dict(mom=0, wd=0))
     if tier == "thorough":
         add([(5, 2), (4,), (1, 3)], 4, graft=None, fixed=dict(mom=0))  # every rank keeps at least one non-empty local shard
         add([(4, 3)], 2, row_sizes={"0": [1, 3]}, graft="adagrad")
